@@ -1004,6 +1004,26 @@ class PsiFuncEventSelectionMethod(
                 'supports only a single source. It was called with '
                 f'{n_sources} sources.')
 
+    def change_shg_mgr(self, shg_mgr):
+        """Changes the SourceHypoGroupManager instance of the event selection
+        method. As for the construction, only a single source is supported.
+
+        Parameters
+        ----------
+        shg_mgr : instance of SourceHypoGroupManager
+            The new SourceHypoGroupManager instance, that should be used for
+            this event selection method.
+        """
+        super().change_shg_mgr(
+            shg_mgr=shg_mgr)
+
+        n_sources = self.shg_mgr.n_sources
+        if n_sources != 1:
+            raise ValueError(
+                'The `PsiFuncEventSelectionMethod.select_events` currently '
+                'supports only a single source. It was called with '
+                f'{n_sources} sources.')
+
     @property
     def psi_name(self):
         """The name of the data field that provides the psi value of the event.
